@@ -2248,6 +2248,24 @@ impl SctpInner {
                 }
             }
 
+            // RFC 3758 3.5 C1/C3: a FORWARD-TSN is not retransmitted by any timer. As long
+            // as the peer's cumulative ack is behind the advanced ack point, the
+            // FORWARD-TSN (it may have been lost) is repeated; otherwise the peer waits
+            // for the abandoned TSNs for ever and delivers nothing behind them, on any
+            // channel.
+            if self.has_pr_sctp.load(Ordering::Relaxed) {
+                let advanced = self.advanced_peer_ack_tsn.load(Ordering::SeqCst);
+                if tsn_gt(advanced, cumulative_tsn_ack) {
+                    self.forward_tsn_pending.store(true, Ordering::SeqCst);
+                } else {
+                    if tsn_gt(cumulative_tsn_ack, advanced) {
+                        self.advanced_peer_ack_tsn
+                            .store(cumulative_tsn_ack, Ordering::SeqCst);
+                    }
+                    self.forward_tsn_streams.lock().clear();
+                }
+            }
+
             // Always call transmit to handle retransmissions (fast or RTO) and new data
             self.transmit().await?;
         }
@@ -3744,8 +3762,19 @@ impl SctpInner {
                 }
             }
             {
+                // Kept (and merged) until the peer's cumulative ack has reached the
+                // advanced ack point: a repeated FORWARD-TSN has to name them again.
                 let mut fwd = self.forward_tsn_streams.lock();
-                *fwd = stream_ssn.into_iter().collect();
+                for (sid, ssn) in stream_ssn {
+                    match fwd.iter_mut().find(|(s, _)| *s == sid) {
+                        Some(entry) => {
+                            if ssn_gt(ssn, entry.1) {
+                                entry.1 = ssn;
+                            }
+                        }
+                        None => fwd.push((sid, ssn)),
+                    }
+                }
             }
             for t in remove {
                 sent_queue.remove(&t);
@@ -3762,10 +3791,7 @@ impl SctpInner {
         // point past chunks the peer has not acknowledged.
         let advanced = self.advanced_peer_ack_tsn.load(Ordering::SeqCst);
 
-        let stream_ssn_pairs: Vec<(u16, u16)> = {
-            let mut fwd = self.forward_tsn_streams.lock();
-            std::mem::take(&mut *fwd)
-        };
+        let stream_ssn_pairs: Vec<(u16, u16)> = self.forward_tsn_streams.lock().clone();
 
         let pair_bytes = stream_ssn_pairs.len() * 4;
         let mut body = BytesMut::with_capacity(4 + pair_bytes);
